@@ -111,13 +111,14 @@ Proof.
   destruct (Nat.ltb_spec (len ip) tl); cbn [bind negb]; [sdone|].
   apply safe_bind.
   - destruct (nth 9 (arr ip) 0 =? 17).
-    + rewrite sl_ok by lia. cbn [bind len].
-      destruct (Nat.ltb_spec (tl - ihl) 8); [sdone|].
+    + rewrite sl_ok by lia. cbn [bind len]. unfold udp_is_valid. cbn [bind len].
+      destruct (Nat.ltb_spec (tl - ihl) 8); cbn [negb]; [sdone|].
       rewrite be16_at_ok by (unfold cap in *; cbn [arr]; rewrite skipn_length; lia). cbn [bind]. sdone.
     + destruct (nth 9 (arr ip) 0 =? 6); [|sdone].
-      rewrite sl_ok by lia. cbn [bind len].
-      destruct (Nat.ltb_spec (tl - ihl) 20); [sdone|].
-      rewrite idx_ok by (cbn [len]; lia). cbn [bind]. sif; [sdone|].
+      rewrite sl_ok by lia. cbn [bind len]. unfold tcp_is_valid. cbn [len].
+      destruct (Nat.ltb_spec (tl - ihl) 20); [cbn [bind negb]; sdone|].
+      rewrite !idx_ok by (cbn [len]; lia). cbn [bind]. sif; [cbn [bind negb]; sdone|]. cbn [bind].
+      sif; cbn [negb]; [sdone|].
       rewrite be16_at_ok by (unfold cap in *; cbn [arr]; rewrite skipn_length; lia). cbn [bind]. sdone.
   - intros _ _. apply when_safe. rewrite sl_ok by lia. cbn [bind]. sdone.
 Qed.
